@@ -82,7 +82,7 @@ def run(ctx, rep):
                                "a lost reset could not be produced on CPython 3.12 (no switch point inside "
                                "`obj.attr += int`); observation only")
     rep.floor("R1", "read-modify-write sites of the counters", n_rmw, 4)
-    rep.floor("R3", "stores to the counters", n_w, 10)
+    rep.floor("R3", "stores to the counters", n_w, 5)
     locks = [s for s in walk_nodes(init.node.body, ast.Assign) if utext(s.targets[0]) == "self._lock"]
     rep.check(len(locks) == 1 and utext(locks[0].value) in ("threading.Lock()", "threading.RLock()"), "R1",
               key(init, None, "one lock per control instance"), init)
